@@ -6,6 +6,7 @@ import (
 	"encoding/json"
 	"fmt"
 	"os"
+	"reflect"
 	"sync"
 )
 
@@ -30,6 +31,15 @@ func New(path string) (*W, error) {
 type E map[string]any
 
 func (w *W) Emit(e E) {
+	// TLC's Json module cannot read null: a nil slice (an empty list that was never appended to) is written as []
+	for k, v := range e {
+		if v == nil {
+			panic(fmt.Sprintf("trace field %q is nil", k))
+		}
+		if rv := reflect.ValueOf(v); rv.Kind() == reflect.Slice && rv.IsNil() {
+			e[k] = []int{}
+		}
+	}
 	w.mu.Lock()
 	defer w.mu.Unlock()
 	data, err := json.Marshal(e)
